@@ -559,6 +559,13 @@ func (x *Exec) modified(nodes []ast.Node, st *State) []types.Object {
 			switch s := n.(type) {
 			case *ast.AssignStmt:
 				for _, l := range s.Lhs {
+					if ix, ok := unparen(l).(*ast.IndexExpr); ok {
+						if t := x.info.TypeOf(ix.X); t != nil {
+							if _, isMap := t.Underlying().(*types.Map); isMap {
+								continue // a map store changes the map object, not the variable that holds it
+							}
+						}
+					}
 					mark(l)
 				}
 			case *ast.IncDecStmt:
